@@ -217,6 +217,13 @@ Definition re_model_match (ct : chartab) (text s : str) : option bool :=
   | None => None
   end.
 
+(* re.fullmatch(text, s): the whole string, final line feed included *)
+Definition re_model_fullmatch (ct : chartab) (text s : str) : option bool :=
+  match parse_regex text with
+  | Some items => Some (match_items ct items s)
+  | None => None
+  end.
+
 (* ------------------------------------------------------------------ which refined patterns the text theorem covers *)
 (* the categories that have a regular expression when there are no extra letters *)
 Definition class_codes : list Z := [cA; ca; cL; cUL; cUM; cD; ch; cH; cX; cN; cn; cC; cUC; cWS; cP; cO; cAny].
@@ -254,11 +261,12 @@ Definition renderable_entry (s : sexp) : sexp :=
                             (map sx_grow (sx_list (sx_nth 3 s)))
                             {| ex_strings := sx_strs (sx_nth 4 s); ex_freqs := [] |}).
 
-(* (text strings) -> (2) outside the fragment | (b1 b2 ...) one 0/1 per string *)
+(* (text strings full) -> (2) outside the fragment | (b1 b2 ...) one 0/1 per string; full = 1: re.fullmatch, 0: re.match *)
 Definition regex_entry (s : sexp) : sexp :=
   let text := sx_str (sx_nth 0 s) in
+  let full := sx_bool (sx_nth 2 s) in
   match parse_regex text with
   | None => L [A 2]
-  | Some _ => L (map (fun x => match re_model_match py_chartab text (sx_str x) with
+  | Some _ => L (map (fun x => match (if full then re_model_fullmatch else re_model_match) py_chartab text (sx_str x) with
                                | Some true => A 1 | Some false => A 0 | None => A 2 end) (sx_list (sx_nth 1 s)))
   end.
